@@ -163,14 +163,19 @@ impl Decoder {
             return Ok((flags, value));
         }
 
-        let mut power = 0;
+        let mut power: u32 = 0;
         loop {
             let byte = bytes_reader
                 .get_bytes(1)
                 .ok_or(DecodingError::UnexpectedFin)?[0] as usize;
 
+            let addend = (byte & 0x7F)
+                .checked_shl(power)
+                .filter(|shifted| shifted >> power == byte & 0x7F)
+                .ok_or(DecodingError::IntegerOverflow)?;
+
             value = value
-                .checked_add((byte & 0x7F) << power)
+                .checked_add(addend)
                 .ok_or(DecodingError::IntegerOverflow)?;
 
             power += 7;
